@@ -179,21 +179,7 @@ def run(ctx):
 
     ctx.rule("R06.3", "trigger_time is the wall-clock instant; the startup entry is consumed once; the shutdown run is issued from stop()", floor=5)
     trigger_time_rule(ctx, program, "R06.3")
-    tw = program.func("trigger.py::TrigInfo.trigger_watch")
-    ifs = [n for n in body_walk(tw) if isinstance(n, ast.If) and norm(n.test) == "self.run_on_startup"]
-    ok = bool(ifs) and any(isinstance(m, ast.Assign) and norm(m) == "self.run_on_startup = False" for m in ifs[0].body)
-    ctx.check(ok, "R06.3", "trigger.py::TrigInfo.trigger_watch", "legacy startup run consumed once", msg="trigger_watch no longer clears run_on_startup on the path that performs the startup run",
-              key="legacy startup once", node=tw, rel="trigger.py")
-    cyc = program.func("decorators/timing.py::TimeTriggerDecorator._cycle")
-    first = cyc.body[0]
-    ok = isinstance(first, ast.If) and norm(first.test) == "self.run_on_startup" and "'startup'" in norm(first) and not any(isinstance(p, (ast.While, ast.For)) for p in [first])
-    ctx.check(ok, "R06.3", "decorators/timing.py::TimeTriggerDecorator._cycle", "new startup run issued once before the loop", msg="TimeTriggerDecorator._cycle no longer dispatches the startup run exactly once before its loop",
-              key="new startup once", node=cyc, rel="decorators/timing.py")
-    for uid, rel in (("trigger.py::TrigInfo.stop", "trigger.py"), ("decorators/timing.py::TimeTriggerDecorator.stop", "decorators/timing.py")):
-        f = program.func(uid)
-        ifs = [n for n in body_walk(f) if isinstance(n, ast.If) and norm(n.test) == "self.run_on_shutdown"]
-        ok = len(ifs) == 1 and "'shutdown'" in norm(ifs[0])
-        ctx.check(ok, "R06.3", uid, "shutdown run issued from stop()", msg=f"{uid} no longer issues the shutdown run under `if self.run_on_shutdown`", key="shutdown run", node=f, rel=rel)
+    startup_shutdown_rule(ctx, program, "R06.3")
     ctx.rule("R06.5", "after an instant was dispatched the next instant is computed from a clock reading taken after that dispatch (or from the instant itself), never from an earlier reading", floor=1)
     next_now_freshness(ctx, program, "R06.5")
 
@@ -322,3 +308,65 @@ def next_now_freshness(ctx, program, rid):
                        ": a wake-up one microsecond early (tolerated by the re-check) yields the same instant again, the function runs twice with one trigger_time")
     ctx.check(n_after > 0 and bad is None, rid, uid, "next instant computed from a reading newer than the last dispatch", msg=f"TimeTriggerDecorator._cycle: {bad or 'second pass not reached'}",
               key="new next-now freshness", node=program.func(uid), rel="decorators/timing.py")
+
+
+def startup_shutdown_rule(ctx, program, rid):
+    """'startup' entries run once when the trigger starts, 'shutdown' entries once from stop() - scenarios in both subsystems."""
+    from ..legacy import WATCH, watch_occurrence
+    # legacy loop: a time occurrence follows the start-up pass
+    for flag in (True, False):
+        recs, _, _ = watch_occurrence(program, "time", heap_over={"self.run_on_startup": Const(flag)})
+        got = set()
+        for r in recs:
+            tt = [run[1].get(Const("trigger_time")) for run in r["runs"] if len(run) > 1 and isinstance(run[1], DictV)]
+            got.add(tuple("startup" if t == Const("startup") else "instant" for t in tt))
+        want = {("startup", "instant")} if flag else {("instant",)}
+        ctx.check(got == want, rid, WATCH, f"legacy: startup entry {'present' if flag else 'absent'}",
+                  msg=f"legacy trigger_watch with run_on_startup={flag}: runs {sorted(got)}, specified {sorted(want)} (the startup run happens exactly once, before any instant)",
+                  key=f"legacy startup {flag}", node=program.func(WATCH), rel="trigger.py")
+    # new cycle
+    uid = "decorators/timing.py::TimeTriggerDecorator._cycle"
+    for flag in (True, False):
+        disp = []
+
+        def dispatch(i, n, a, k, c, o, disp=disp):
+            d = a[0].args[1] if a and isinstance(a[0], App) and a[0].op == "new" and len(a[0].args) > 1 else (a[0] if a else None)
+            tt = d.get(Const("trigger_time")) if isinstance(d, DictV) else None
+            c = c.hset("$disp", ListV(c.heap.get("$disp", ListV(())).items + (Const("startup") if tt == Const("startup") else Const("instant"),)))
+            return [(c, NONE)]
+
+        def ttn(i, n, a, k, c, o):
+            return [(c, ListV((App("instant", (a[1],)), App("adj", (a[1],))), "tuple"))]
+
+        pol = _AdjPolicy(program, may_raise_all=False, cancel=False, summaries={"trigger.TrigTime.timer_trigger_next": ttn, "self.dispatch": dispatch}, record_atoms=False)
+        pol.loop_unroll = 2
+        heap = {"self.run_on_startup": Const(flag), "self.dm": ObjV("dm", "DecoratorManager"), "dm.status": Sym(("clsattr", "DecoratorManagerStatus", "RUNNING")),
+                "dm.startup_time": Sym(("startup",)), "self.timespec": ListV((Const("period(now, 10min)"),), "list"), "dm.name": Const("f")}
+        out = run_flow(program, uid, pol, args={"self": ObjV("self", "TimeTriggerDecorator")}, heap=heap)
+        got = {tuple(x.v for x in c.heap.get("$disp", ListV(())).items) for k, c, d in exits(out)}
+        ok = bool(got) and all((seq[:1] == ("startup",)) == flag and "startup" not in seq[1:] for seq in got) and any(len(seq) > (1 if flag else 0) for seq in got)
+        ctx.check(ok, rid, uid, f"new: startup entry {'present' if flag else 'absent'}",
+                  msg=f"TimeTriggerDecorator._cycle with run_on_startup={flag}: dispatch sequences {sorted(got)}; the startup run must come first, exactly once, and only when requested",
+                  key=f"new startup {flag}", node=program.func(uid), rel="decorators/timing.py")
+    # shutdown runs from stop()
+    for uid, rel, selfcls in (("trigger.py::TrigInfo.stop", "trigger.py", "TrigInfo"), ("decorators/timing.py::TimeTriggerDecorator.stop", "decorators/timing.py", "TimeTriggerDecorator")):
+        for flag in (True, False):
+            runs = []
+
+            def rec(i, n, a, k, c, o, runs=runs):
+                d = None
+                for x in list(a) + list(k.values()):
+                    if isinstance(x, DictV):
+                        d = x
+                    if isinstance(x, App) and x.op == "new" and len(x.args) > 1 and isinstance(x.args[1], DictV):
+                        d = x.args[1]
+                runs.append(d.get(Const("trigger_time")) if d is not None else None)
+                return [(c, Sym(("future",)))]
+
+            pol = FlowPolicy(program, may_raise_all=False, cancel=False, summaries={"self.call_action": rec, "self.dispatch": rec})
+            heap = {"self.run_on_shutdown": Const(flag), "self.task": NONE, "self._cycle_task": NONE, "self.time_trigger_kwargs": DictV(()), "self.state_trig_ident": NONE,
+                    "self.event_trigger": NONE, "self.mqtt_trigger": NONE, "self.webhook_trigger": NONE}
+            out = run_flow(program, uid, pol, args={"self": ObjV("self", selfcls)}, heap=heap)
+            want = [Const("shutdown")] if flag else []
+            ctx.check(bool(exits(out)) and runs == want, rid, uid, f"shutdown entry {'present' if flag else 'absent'}",
+                      msg=f"{uid} with run_on_shutdown={flag}: runs issued with trigger_time {runs!r}, specified {want!r}", key=f"shutdown run {flag}", node=program.func(uid), rel=rel)
